@@ -85,6 +85,10 @@ func c19SeqExec(run *ev.Run, limit int, hist []string) (string, bool) {
 			vtime.Advance(c19Rate + 1)
 		case "+1":
 			vtime.Advance(1)
+		case "+.4":
+			vtime.Advance(c19Rate * 2 / 5)
+		case "+.6":
+			vtime.Advance(c19Rate * 3 / 5)
 		}
 	}
 	if sig, what := rlJudge(limit, c19Rate, calls); sig != "" {
@@ -99,7 +103,9 @@ func c19SeqExec(run *ev.Run, limit int, hist []string) (string, bool) {
 			rel = append(rel, fmt.Sprint(int64(now-c.A)))
 		}
 	}
-	return fmt.Sprintf("%v|%d", rel, r.VerifLen()), true
+	// the implementation's own fields are part of the key (clock-independent rendering): a cursor or flag the model
+	// knows nothing about must keep two histories apart
+	return fmt.Sprintf("%v|%d|%s", rel, r.VerifLen(), hiddenState(r, vtime.Now())), true
 }
 
 // ---- concurrent scenario ----
@@ -191,6 +197,25 @@ func init() {
 				run.NotExhaustive("sequential state cap hit")
 			}
 			run.Sample(map[string]interface{}{"part": "sequential", "limit": limit, "states": st.States, "transitions": st.Transitions, "depth": st.MaxDepth})
+		}
+		// (a') long histories over a coarse clock alphabet (0.4, 0.6 and just over one window): fill, replace the
+		// expired oldest, go idle for a whole window, refill spread out, probe - deep enough for limits 2 and 3
+		deepOps := []string{"allow", "+.4", "+.6", "+rate+1"}
+		for _, lim := range []struct{ limit, depth int }{{2, 13}, {3, 16}} {
+			lim := lim
+			d := lim.depth
+			if tier == "thorough" {
+				d += 3
+			}
+			st := bfsInProc(run, d, 3000000, func([]string) []string { return deepOps }, func(h []string) (string, bool) {
+				return c19SeqExec(run, lim.limit, h)
+			})
+			states += st.States
+			trans += st.Transitions
+			if st.Capped {
+				run.NotExhaustive("sequential (coarse clock) state cap hit")
+			}
+			run.Sample(map[string]interface{}{"part": "sequential, coarse clock", "limit": lim.limit, "states": st.States, "transitions": st.Transitions, "depth": st.MaxDepth})
 		}
 		// (b) concurrent: all interleavings
 		p := pool.New(0)
